@@ -38,7 +38,7 @@ def main():
         for f in sorted(os.listdir(os.path.join(bd, s))):
             if f.endswith('.diff'):
                 n = '%s/%s' % (s, f[:-5])
-                if not args or any(a in n for a in args):
+                if not args or any(a in n + "." for a in args):
                     items.append((n, os.path.join(bd, s, f)))
     out = []
     with cf.ThreadPoolExecutor(max_workers=j) as ex:
